@@ -4,8 +4,9 @@
 //@ harness e_paths_plain kind=enum props=C16 bound=<<starting points d, ./d, /d, d/e, ., .., / x entries at depth 0, 1, 2 below them>> label=<<%p is the path as -print shows it, %H the starting point as given, %P the path below it, %d the depth, %f the last component, %h the part before it; %H, a separator and %P recompose %p (plain spellings)>>
 //@ harness e_paths_slash kind=enum props=C16 bound=<<starting points d/, d//, d/., ./, d/./ x entries at depth 1, 2 below them>> label=<<%p, %P, %d and %f for starting points spelled with a trailing slash or a trailing /.>>
 //@ harness e_paths_slash_h kind=enum props=C16 bound=<<starting points d/, d//, d/., ./, d/./ x entries at depth 1, 2 below them>> label=<<%H is the starting point as given and %h the part before the last component, and %H, a separator and %P recompose %p, for starting points spelled with a trailing slash or a trailing /.>>
+//@ harness e_printf_roots kind=enum props=C16 bound=<<a real tree a/{f1, b/{f2}} with the starting points a and a/b in either order (one inside the other), or a/b and a sibling c x -type f / -mindepth 1 / -depth placed before -printf>> label=<<for every entry %H is the starting point of the walk that reached it and %P the path below that starting point, also when one starting point lies inside another and the same -printf serves both walks>>
 //@ harness e_padding kind=enum props=C16 bound=<<widths none, 0, 1, 3, 10, 64, 65, 100, 300 x both justifications x values of 1, 4 and 12 characters (%f) and a number (%d)>> label=<<a directive's value is padded with blanks to the minimum width, on the left by default and on the right with '-', and never truncated>>
-//@ harness e_format_text kind=enum props=C16 bound=<<format strings of 0..=3 pieces over {a, e-acute, \n, \101, \0, \\, %%, %p, trailing text, \a, \b, \f, \r, \t, \v}>> label=<<escapes and %% are replaced by their character, every other character is copied verbatim, nothing is appended>>
+//@ harness e_format_text kind=enum props=C16 bound=<<format strings of 0..=3 pieces over {a, e-acute, \n, \101, \0, \\, %%, %p, trailing text, \a, \b, \f, \r, \t, \v, \7, \12, the 3-byte euro sign}>> label=<<escapes and %% are replaced by their character, every other character is copied verbatim, nothing is appended>>
 //@ harness e_inode_below_root kind=enum props=C16,C13 bound=<<every entry directly below / (mount points included where the sandbox has them)>> label=<<%i is the inode number of the status record (lstat under -P), also for entries that are mount points, where the directory listing reports a different number>>
 //@ harness e_stat_directives kind=enum props=C16,C13 bound=<<a regular file (5 bytes, mode 0640), a directory (mode 2750), a symbolic link to the file, a dangling link x follow modes -P and -L>> label=<<%s %n %i %U %G in decimal and %m in octal (all twelve bits) come from the status record the follow mode selects; %y/%Y are the type letters of -type/-xtype; %l is the link target or nothing>>
 #[cfg(verif_replay)]
@@ -55,6 +56,43 @@ mod verif_enum_printf {
     #[test] fn e_paths_slash() { kani::explore(slash_body) }
     #[test] fn e_paths_slash_h() { kani::explore(slash_h_body) }
 
+    fn printf_roots_body() {
+        use crate::find::tests::FakeDependencies;
+        let d = std::env::temp_dir().join(format!("verif-enum-proots-{}", std::process::id()));
+        let _ = std::fs::remove_dir_all(&d);
+        std::fs::create_dir_all(d.join("a/b")).unwrap();
+        std::fs::create_dir_all(d.join("c")).unwrap();
+        std::fs::write(d.join("a/f1"), "").unwrap();
+        std::fs::write(d.join("a/b/f2"), "").unwrap();
+        std::fs::write(d.join("c/f3"), "").unwrap();
+        let ds = d.to_str().unwrap().to_string();
+        let orders: [[&str; 2]; 3] = [["a", "a/b"], ["a/b", "a"], ["a/b", "c"]];
+        let roots: Vec<String> = orders[pick(3)].iter().map(|r| format!("{ds}/{r}")).collect();
+        let pre: &[&str] = [&["-type", "f"][..], &["-mindepth", "1", "-type", "f"][..], &["-depth", "-type", "f"][..]][pick(3)];
+        let mut args: Vec<&str> = vec!["find", &roots[0], &roots[1], "-sorted"];
+        args.extend_from_slice(pre);
+        args.extend_from_slice(&["-printf", "%H|%P|%p\\n"]);
+        let deps = FakeDependencies::new();
+        let _rc = crate::find::find_main(&args, &deps);
+        let got = String::from_utf8_lossy(deps.output.borrow().get_ref()).into_owned();
+        // the statement: each file below a starting point, in walk order, with that starting point as %H
+        let mut want = String::new();
+        for r in &roots {
+            let mut files: Vec<String> = Vec::new();
+            fn collect(p: &std::path::Path, out: &mut Vec<String>) { let mut k: Vec<_> = std::fs::read_dir(p).unwrap().map(|e| e.unwrap().path()).collect(); k.sort(); for c in k { if c.is_dir() { collect(&c, out); } else { out.push(c.to_string_lossy().into_owned()); } } }
+            collect(std::path::Path::new(r), &mut files);
+            // -sorted pre-order and -depth post-order list the plain files of these trees in the same relative order, except that
+            // a directory's own files and its subdirectories interleave by name: compare as sets per starting point instead
+            files.sort();
+            for f in files { want.push_str(&format!("{r}|{}|{f}\n", &f[r.len() + 1..])); }
+        }
+        let norm = |t: &str| { let mut l: Vec<&str> = t.lines().collect(); l.sort(); l.join("\n") };
+        let _ = std::fs::remove_dir_all(&d);
+        if norm(&got) != norm(&want) { eprintln!("  input find {:?}\n  input printed  {:?}\n  input expected {:?} (any order)", args[1..].iter().map(|a| a.replace(&ds, "D")).collect::<Vec<_>>(), got.replace(&ds, "D"), want.replace(&ds, "D")); }
+        assert!(norm(&got) == norm(&want), "%H / %P with several starting points");
+    }
+    #[test] fn e_printf_roots() { kani::explore(printf_roots_body) }
+
     fn padding_body() {
         let widths = [None, Some(0usize), Some(1), Some(3), Some(10), Some(64), Some(65), Some(100), Some(300)];
         let w = widths[pick(widths.len())];
@@ -75,12 +113,16 @@ mod verif_enum_printf {
     #[test] fn e_padding() { kani::explore(padding_body) }
 
     fn format_text_body() {
-        let pieces: [(&str, &str); 15] = [("a", "a"), ("\u{e9}", "\u{e9}"), ("\\n", "\n"), ("\\101", "A"), ("\\0", "\0"), ("\\\\", "\\"), ("%%", "%"), ("%p", "d/f"), (" x", " x"),
+        let pieces: [(&str, &str); 18] = [("\\7", "\x07"), ("\\12", "\n"), ("\u{20ac}", "\u{20ac}"),
+                                          ("a", "a"), ("\u{e9}", "\u{e9}"), ("\\n", "\n"), ("\\101", "A"), ("\\0", "\0"), ("\\\\", "\\"), ("%%", "%"), ("%p", "d/f"), (" x", " x"),
                                           ("\\a", "\x07"), ("\\b", "\x08"), ("\\f", "\x0c"), ("\\r", "\r"), ("\\t", "\t"), ("\\v", "\x0b")];
         let n = pick(4);
         let (mut fmt, mut want) = (String::new(), String::new());
         for _ in 0..n { let (a, b) = pieces[pick(pieces.len())]; fmt.push_str(a); want.push_str(b); }
         let entry = WalkEntry::new(PathBuf::from("d").join("f"), 1, Follow::Never);
+        // short octal escapes (\\7, \\12) are not in the statement's list: a format using them may be rejected, but never by a panic,
+        // and if it is accepted it must mean what C makes of it
+        if Printf::new(&fmt, None).is_err() { assert!(fmt.contains("\\7") || fmt.contains("\\12"), "a format made of listed escapes was rejected"); return; }
         let got = render(&fmt, &entry);
         if got != want { eprintln!("  input format {fmt:?}\n  input got      {got:?}\n  input expected {want:?}"); }
         assert!(got == want, "literal text, escapes and %%");
